@@ -12,7 +12,7 @@ res = {}
 try:
     shutil.copy('/repo/Cargo.lock', wt + '/Cargo.lock')
     rc, o = sh(['cargo', 'build', '--offline', '-p', 'fst-bin'], wt, env)
-    rc, o = sh(['bash', os.path.join(src, 'demo.sh'), tgt + '/debug/fst'], wt, env)
+    rc, o = sh(['bash', os.path.join(src, 'demo.sh'), (wt if 'cargo build' in open(os.path.join(src, 'demo.sh')).read() else tgt + '/debug/fst')], wt, env)
     res['demo_clean_passes'] = rc == 0
     rc, o = sh(['git', 'apply', os.path.abspath(os.path.join(src, 'patch.diff'))], wt)
     res['applies'] = rc == 0
@@ -20,7 +20,7 @@ try:
     res['suite_green_with_patch'] = rc == 0
     res['suite'] = [l for l in o.splitlines() if l.startswith('test result')]
     rc, o = sh(['cargo', 'build', '--offline', '-p', 'fst-bin'], wt, env)
-    rc, o = sh(['bash', os.path.join(src, 'demo.sh'), tgt + '/debug/fst'], wt, env)
+    rc, o = sh(['bash', os.path.join(src, 'demo.sh'), (wt if 'cargo build' in open(os.path.join(src, 'demo.sh')).read() else tgt + '/debug/fst')], wt, env)
     res['demo_fails_with_patch'] = rc != 0
     res['demo_tail'] = o.splitlines()[-3:]
     cenv = dict(os.environ, VERIF_REPO=wt, VERIF_EVIDENCE_DIR='/tmp/cf-ev')
